@@ -291,21 +291,23 @@ def bundleFormats (E : Env B D) (sel : Str → Bool) : List (Str × Conv) :=
       | none => acc
       | some m => if m ≠ [] ∧ sel m then dictSet acc m c else acc) []
 
-/-- `for mime, conv in formats.items(): with suppress(KeyError): bundle[mime] = self.__load_cache([conv])` -/
+/-- first loop (after fix: the WHOLE `depends` chain of the format's converter is handed to `__load_cache`,
+as `render` does): `for mime, conv in formats.items(): try: bundle[mime] = self.__load_cache(list(_walk_converters(conv)))
+except KeyError: pass; except Exception: LOGGER.exception(..)` — "not cached" and every failure (handler or
+converter, e.g. PNG from a cached SVG without cairosvg) skip that MIME type; the calls made are in the trace -/
 def bundleCached (E : Env B D) (q : Req B D) : List (Str × Conv) → List Ev × Except ErrF (List (Str × D))
   | [] => ([], .ok [])
   | (m, c) :: rest =>
-    let r : List Ev × Except ErrF D :=
-      if E.cfg.cache then loadCacheF E.ops q.openf E.u [c] else ([], .error (.base .keyError))
-    match r with
-    | (tr, .ok d) =>
+    match E.T.chain c.id with
+    | none => ([], .error (.base .diverges))
+    | some chain =>
+      let r : List Ev × Except ErrF D :=
+        if E.cfg.cache then loadCacheF E.ops q.openf E.u chain else ([], .error (.base .keyError))
       let r' := bundleCached E q rest
-      (tr ++ r'.1, r'.2.map ((m, d) :: ·))
-    | (tr, .error e) =>
-      if e.isKey then
-        let r' := bundleCached E q rest
-        (tr ++ r'.1, r'.2)
-      else (tr, .error e)
+      (r.1 ++ r'.1,
+       match r.2 with
+       | .ok d => r'.2.map ((m, d) :: ·)
+       | .error _ => r'.2)
 
 /-- second loop: every selected format converted from the internal rendering; a failing conversion is
 logged and skipped -/
@@ -322,7 +324,10 @@ def bundleConverted (E : Env B D) (img : D) : List (Str × Conv) → List Ev × 
        | .ok d => r'.2.map ((m, d) :: ·)
        | .error e => if e.isDiverge then .error e else r'.2)
 
-/-- `_repr_mimebundle_(include, exclude)`; `sel m` = `m in include and m not in exclude` -/
+/-- `_repr_mimebundle_(include, exclude)`; `sel m` = `m in include and m not in exclude`.
+After the fix the miss path consults the policy of `render`: with a cache configured and `_allow_render` false
+the "Diagram not in cache" `RuntimeError` is raised inside the `try` and becomes the "render"-stage error image
+(what `as_<fmt>` / `__html__` show); `__render_fresh` is not called and the state is untouched. -/
 def mimebundleS (E : Env B D) (st : St D) (q : Req B D) (sel : Str → Bool) (draw : Bool) : Res D (Out D) :=
   let formats := bundleFormats E sel
   if formats.isEmpty then (st, [], .ok .bundleNone) else
@@ -330,19 +335,20 @@ def mimebundleS (E : Env B D) (st : St D) (q : Req B D) (sel : Str → Bool) (dr
   | (tr, .error e) => (st, tr, .error e)
   | (tr, .ok (it :: items)) => (st, tr, .ok (.bundle (it :: items)))
   | (tr, .ok []) =>
-    -- nothing came from the cache: `__render_fresh({})`, whatever `_allow_render` says
-    let st' := freshSt E.ops st q.create true
+    let refuse := E.cfg.cache && !E.cfg.allowRender
+    let st' := if refuse then st else freshSt E.ops st q.create true
     let im : List Ev × D :=
+      if refuse then errImageOf E.ops st (.base .notInCache) else
       match st'.result with
-      | .ok d => ([], d)
-      | .error e => errImageOf E.ops st' e
+      | .ok d => ([.fresh], d)
+      | .error e => (.fresh :: (errImageOf E.ops st' e).1, (errImageOf E.ops st' e).2)
     match bundleConverted E im.2 formats with
-    | (tr2, .error e) => (st', tr ++ .fresh :: im.1 ++ tr2, .error e)
-    | (tr2, .ok (it :: items)) => (st', tr ++ .fresh :: im.1 ++ tr2, .ok (.bundle (it :: items)))
+    | (tr2, .error e) => (st', tr ++ im.1 ++ tr2, .error e)
+    | (tr2, .ok (it :: items)) => (st', tr ++ im.1 ++ tr2, .ok (.bundle (it :: items)))
     | (tr2, .ok []) =>
       match reprS E st' q draw with
-      | (st'', tr3, .ok r) => (st'', tr ++ .fresh :: im.1 ++ tr2 ++ tr3, .ok (.bundleText r))
-      | (st'', tr3, .error e) => (st'', tr ++ .fresh :: im.1 ++ tr2 ++ tr3, .error e)
+      | (st'', tr3, .ok r) => (st'', tr ++ im.1 ++ tr2 ++ tr3, .ok (.bundleText r))
+      | (st'', tr3, .error e) => (st'', tr ++ im.1 ++ tr2 ++ tr3, .error e)
 
 /-- the calls a user can make on a diagram object -/
 inductive Entry
